@@ -7,7 +7,12 @@ src = "/tmp/mut/%s/out/%s" % (prop, k)
 dst = "/verif/seeded/%s-%s" % (prop, sys.argv[5] if len(sys.argv) > 5 else k)
 if os.path.exists(dst): shutil.rmtree(dst)
 os.makedirs(dst)
-shutil.copy(os.path.join(src, "patch.diff"), dst)
+if os.path.exists(os.path.join(src, "patch.rebased.diff")):
+    # /repo moved on after the sub-agent's worktree was cut: patch.diff is the hand-rebased change (applies to /repo now)
+    shutil.copy(os.path.join(src, "patch.rebased.diff"), os.path.join(dst, "patch.diff"))
+    shutil.copy(os.path.join(src, "patch.diff"), os.path.join(dst, "patch.as-delivered.diff"))
+else:
+    shutil.copy(os.path.join(src, "patch.diff"), dst)
 shutil.copytree(os.path.join(src, "demo"), os.path.join(dst, "demo"))
 meta = json.load(open(os.path.join(src, "meta.json")))
 meta["property"] = prop
